@@ -5,6 +5,7 @@ pub mod anyhow {
     #[verifier::external_body] pub struct Error { _p: u8 }
     pub type Result<T, E = Error> = core::result::Result<T, E>;
     #[verifier::external_body] pub fn anyhow_msg(m: &str) -> (r: Error) { unimplemented!() }
+    #[verifier::external_body] pub fn anyhow_from<E>(e: E) -> (r: Error) { unimplemented!() }
 }
 pub use anyhow::Result;
 impl vstd::std_specs::convert::FromSpecImpl<SeliumError> for anyhow::Error {
@@ -55,6 +56,27 @@ pub mod tokio {
     #[verifier::external_body] pub struct JoinHandle { _p: u8 }
     #[verifier::external_body] pub fn spawn<F>(f: F) -> (r: JoinHandle) { unimplemented!() }
 }
+// R19b: a task spawned and detached (its JoinHandle dropped); spawning does not wait
+#[verifier::external_body] pub fn vx_spawn_detached() { unimplemented!() }
+// quinn: the handshake future, the connection, its error
+#[verifier::external_body] pub struct Connecting { _p: u8 }
+#[verifier::external] impl core::future::Future for Connecting { type Output = core::result::Result<Connection, ConnectionError>; fn poll(self: core::pin::Pin<&mut Self>, cx: &mut core::task::Context<'_>) -> core::task::Poll<Self::Output> { unimplemented!() } }
+pub enum ConnectionError { ApplicationClosed { reason: u8 }, Other }
+impl vstd::std_specs::convert::FromSpecImpl<ConnectionError> for anyhow::Error {
+    open spec fn obeys_from_spec() -> bool { false }
+    uninterp spec fn from_spec(e: ConnectionError) -> anyhow::Error;
+}
+impl From<ConnectionError> for anyhow::Error { #[verifier::external_body] fn from(e: ConnectionError) -> anyhow::Error { unimplemented!() } }
+#[verifier::external_body] pub struct SendStream { _p: u8 }
+#[verifier::external_body] pub struct RecvStream { _p: u8 }
+impl Connection {
+    // waits for the peer to open another bidirectional stream on this connection
+    #[verifier::external_body] pub async fn accept_bi(&self) -> (r: core::result::Result<(SendStream, RecvStream), ConnectionError>) { unimplemented!() }
+}
+impl Clone for Connection { #[verifier::external_body] fn clone(&self) -> (r: Connection) { unimplemented!() } }
+// BiStream::from((send, recv)): a fresh framed stream; nothing has been answered on it yet
+#[verifier::external_body] pub fn vx_bistream_from(s: (SendStream, RecvStream)) -> (r: BiStream) ensures r.answer() is Nothing { unimplemented!() }
+impl Clone for SharedTopicHandles { #[verifier::external_body] fn clone(&self) -> (r: SharedTopicHandles) { unimplemented!() } }
 #[verifier::external_body] pub struct SharedTopicHandles { _p: u8 }
 #[verifier::external_body] pub struct TopicHandlesGuard { _p: u8 }
 impl SharedTopicHandles { #[verifier::external_body] pub async fn lock(&self) -> (r: TopicHandlesGuard) { unimplemented!() } }
